@@ -250,6 +250,14 @@ def gen_loop_case(rng: random.Random):
     if driver:
         beh.append({'type': 'time-based', 'step_size': 1, 'default_output': [None, ['po']]})
     init = [] if driver else [[0, 0]] if types[0] == 'event-based' else []
+    if rng.random() < 0.35:
+        # an ungrouped event-based listener behind the first loop member, triggered only by an output of time 0 (sparse): in
+        # later time steps its progress has to follow the loop although nothing steps it
+        k = len(types); types.append('event-based'); grp.append([])
+        edges.append(dict(a=0, b=k, sa='e2', da='ti', kind='p', shift=0, init=False))
+        o = beh[0]['outputs'].get('0,0')
+        if o is not None: o[1] = sorted(set(o[1]) | {'e2'})
+        beh.append({'type': 'event-based', 'self_steps': {}, 'outputs': {}, 'default_output': [None, []]})
     return dict(n=len(types), types=types, grp=grp, edges=edges, until=until, beh=beh, init=init, maxloop=bound, loop_len=L)
 
 
@@ -681,3 +689,53 @@ def gen_forecast_case(rng: random.Random):
         if types[j] == 'time-based': beh.append({'type': 'time-based', 'step_size': 1, 'default_output': [None, ['po']]})
         else: beh.append({'type': 'hybrid', 'self_steps': {str(t): t + 1 for t in range(until)}, 'outputs': {f'{t},0': [None, ['po']] for t in range(until + 1)}, 'default_output': [None, ['po']]})
     return dict(n=n, types=types, grp=grp, edges=edges, until=until, beh=beh, init=[], maxloop=100)
+
+
+def gen_late_event_case(rng: random.Random):
+    """initial events at the very end: an event-based simulator that is triggered early by a hybrid ticker over a time-shifted
+    (or, in a group, weak) connection and has an initial event at until, until + 1 or until - 1; the ticker goes on stepping
+    to the end but produces the triggering output only at the beginning, so the simulator waits - its progress held below until
+    by its ancestor - with the late event at the head of its queue.  Nothing may be stepped at or after until."""
+    until = rng.randint(3, 6)
+    late = until + rng.choice([0, 0, 0, 1, -1])
+    grouped = rng.random() < 0.4
+    n = rng.choice([2, 3])
+    types = ['hybrid', 'event-based'] + (['hybrid'] if n == 3 else [])
+    grp = [[0] for _ in range(n)] if grouped else [[] for _ in range(n)]
+    kind = rng.choice(['ts', 'ts', 'w']) if grouped else 'ts'
+    edges = [dict(a=0, b=1, sa='eo', da='ti', kind=kind, shift=1 if kind == 'ts' else 0, init=False)]
+    if n == 3: edges.append(dict(a=1, b=2, sa='eo', da='ti', kind='p', shift=0, init=False))
+    first = rng.choice([0, 0, 1])
+    beh = [{'type': 'hybrid', 'self_steps': {str(t): t + 1 for t in range(until)},
+            'outputs': {f'{t},0': [None, ['po', 'eo'] if t <= first else ['po']] for t in range(until + 1)}, 'default_output': [None, ['po']]},
+           {'type': 'event-based', 'self_steps': {}, 'outputs': {}, 'default_output': [None, ['eo']]}]
+    if n == 3: beh.append({'type': 'hybrid', 'self_steps': {}, 'outputs': {}, 'default_output': [None, ['po']]})
+    return dict(n=n, types=types, grp=grp, edges=edges, until=until, beh=beh, init=[[1, late]], maxloop=100)
+
+
+def gen_detour_case(rng: random.Random):
+    """two trigger paths between one pair that tie on every tier and differ only in the cutoff: A -> B directly inside a group,
+    and A -> M -> B through a simulator M outside the group.  A iterates a weak same-time loop with Q and feeds M only in its
+    second iteration, and it never produces the attribute of the direct connection, so B has no step of its own queued; C, in
+    the group, consumes B and steps by itself at every time.  C must not be stepped at t before B's step at t (which A's
+    second iteration causes through M).  (The scenario leaves and re-enters the group: run with lazy stepping off, where the
+    unchanged scheduler completes it.)"""
+    until = rng.randint(2, 4)
+    # indices: A=0, Q=1, B=2, M=3, C=4 (started in a random order by the start-order variants of the checks)
+    types = ['hybrid', 'event-based', 'event-based', 'event-based', 'hybrid']
+    grp = [[0], [0], [0], [], [0]]
+    edges = [dict(a=0, b=1, sa='eo', da='ti', kind='p', shift=0, init=False), dict(a=1, b=0, sa='eo', da='ti', kind='w', shift=0, init=False),
+             dict(a=0, b=2, sa='po', da='t2', kind='p', shift=0, init=False), dict(a=0, b=3, sa='e2', da='ti', kind='p', shift=0, init=False),
+             dict(a=3, b=2, sa='eo', da='ti', kind='p', shift=0, init=False),
+             dict(a=2, b=4, sa='eo', da=rng.choice(['ti', 'ti', 't2']), kind='p', shift=0, init=False)]
+    rng.shuffle(edges)
+    outs_a = {}
+    for t in range(until + 1):
+        outs_a[f'{t},0'] = [None, ['eo']]; outs_a[f'{t},1'] = [None, ['e2']]
+        for q in range(2, 5): outs_a[f'{t},{q}'] = [None, []]
+    beh = [{'type': 'hybrid', 'self_steps': {str(t): t + 1 for t in range(until)}, 'outputs': outs_a, 'default_output': [None, []]},
+           {'type': 'event-based', 'self_steps': {}, 'outputs': {f'{t},0': [None, ['eo']] for t in range(until + 1)}, 'default_output': [None, []]},
+           {'type': 'event-based', 'self_steps': {}, 'outputs': {}, 'default_output': [None, ['eo']]},
+           {'type': 'event-based', 'self_steps': {}, 'outputs': {}, 'default_output': [None, ['eo']]},
+           {'type': 'hybrid', 'self_steps': {str(t): t + 1 for t in range(until)}, 'outputs': {}, 'default_output': [None, ['po']]}]
+    return dict(n=5, types=types, grp=grp, edges=edges, until=until, beh=beh, init=[], maxloop=100, lazy_only_off=True)
